@@ -96,6 +96,89 @@ def scan_reads(root):
     return out
 
 
+# process-global mutable state that functions of the package may write, with the reason why it cannot make a result depend on the history
+STATE_ALLOWED = {
+    ("api/__init__.py", "CONSOLE_LOGGING_HANDLER"): "logging handler",
+    ("api/fmm/fmm_assembler.py", "_FMM_CACHE"): "FMM interface cache (key contract: cache-key.get_fmm_interface)",
+    ("api/fmm/fmm_assembler.py", "_FMM_POTENTIAL_CACHE"): "FMM potential interface cache (key contract: cache-key.get_fmm_potential_interface)",
+    ("api/fmm/exafmm.py", "FMM_TMP_DIR"): "path of the temporary directory of the FMM library",
+    ("api/utils/remote_operator.py", "_REMOTE_MANAGER"): "MPI remote manager singleton (not used by assembly)",
+    ("core/opencl_kernels.py", "_DEFAULT_CPU_CONTEXT"): "OpenCL device selection (OpenCL execution is not covered)",
+    ("core/opencl_kernels.py", "_DEFAULT_CPU_DEVICE"): "OpenCL device selection",
+    ("core/opencl_kernels.py", "_DEFAULT_GPU_CONTEXT"): "OpenCL device selection",
+    ("core/opencl_kernels.py", "_DEFAULT_GPU_DEVICE"): "OpenCL device selection",
+}
+_MUTATORS = ("append", "add", "update", "setdefault", "pop", "clear", "extend", "insert", "remove", "popitem")
+
+
+def scan_state_writes(root):
+    """{(module, name): [(function, line)]}: module-level names bound to a container / None at module level and written (rebound through `global`, item
+    / attribute store, mutating method call) inside a function of the same module."""
+    out = {}
+    base = os.path.join(root, "bempp_cl")
+    for dp, dn, fn in os.walk(base):
+        for f in fn:
+            if not f.endswith(".py"):
+                continue
+            path = os.path.join(dp, f)
+            rel = os.path.relpath(path, base)
+            try:
+                tree = ast.parse(open(path).read())
+            except SyntaxError:
+                continue
+            names = set()
+            for st in tree.body:
+                if isinstance(st, (ast.Assign, ast.AnnAssign)):
+                    v = st.value
+                    mutable = isinstance(v, (ast.Dict, ast.List, ast.Set, ast.DictComp, ast.ListComp, ast.SetComp)) or (isinstance(v, ast.Constant) and v.value is None) or (
+                        isinstance(v, ast.Call) and ast.unparse(v.func).split(".")[-1] in ("dict", "list", "set", "defaultdict", "OrderedDict", "WeakValueDictionary", "lru_cache"))
+                    for t in (st.targets if isinstance(st, ast.Assign) else [st.target]):
+                        if isinstance(t, ast.Name) and mutable:
+                            names.add(t.id)
+            # functools caches on functions are process-global state as well
+            for node in ast.walk(tree):
+                if isinstance(node, ast.FunctionDef):
+                    for dec in node.decorator_list:
+                        if ast.unparse(dec).split("(")[0].split(".")[-1] in ("lru_cache", "cache"):
+                            out.setdefault((rel, "@%s(%s)" % (ast.unparse(dec).split("(")[0], node.name)), []).append((node.name, node.lineno))
+            for node in ast.walk(tree):
+                if not isinstance(node, (ast.FunctionDef, ast.AsyncFunctionDef)):
+                    continue
+                globs = set()
+                for n in ast.walk(node):
+                    if isinstance(n, ast.Global):
+                        globs.update(n.names)
+                for n in ast.walk(node):
+                    if isinstance(n, (ast.Assign, ast.AugAssign)):
+                        for t in (n.targets if isinstance(n, ast.Assign) else [n.target]):
+                            b = t
+                            while isinstance(b, (ast.Subscript, ast.Attribute)):
+                                b = b.value
+                            if isinstance(b, ast.Name) and ((b is not t and b.id in names) or (b is t and b.id in globs)):
+                                out.setdefault((rel, b.id), []).append((node.name, n.lineno))
+                    if isinstance(n, ast.Call) and isinstance(n.func, ast.Attribute) and n.func.attr in _MUTATORS and isinstance(n.func.value, ast.Name) and n.func.value.id in names:
+                        out.setdefault((rel, n.func.value.id), []).append((node.name, n.lineno))
+    return out
+
+
+def ob_state_writes():
+    """frame: the functions of the package write no process-global mutable state other than the listed one.  New global state (e.g. a memo table) is
+    not a violation by itself - its key may be complete - so it is reported as UNDECIDED ("not under a frame contract"); the scripted histories decide
+    whether results actually depend on it."""
+    writes = scan_state_writes(REPO)
+    res = []
+    for key, where in sorted(writes.items()):
+        lab = "%s::%s" % key
+        if key in STATE_ALLOWED:
+            res.append((lab, proved("ast-frame", "listed: %s" % STATE_ALLOWED[key])))
+        else:
+            res.append((lab, undecided("process-global state %s is written by %s and is under no frame / key contract: results may depend on the call history "
+                                       "(see the history obligations)" % (lab, sorted(set(where))), backend="ast-frame")))
+    if not res:
+        return {"status": "error", "detail": "no global state found at all (scanner broken?)"}
+    return res
+
+
 def ob_frame():
     """frame: reads of process-global state ⊆ READS_ALLOWED."""
     reads = scan_reads(REPO)
@@ -437,6 +520,7 @@ def main():
     thorough = run.tier == "thorough"
     run.explanation = __doc__
     run.add("frame.global-state-reads", "frame", ob_frame)
+    run.add("frame.global-state-writes", "frame", ob_state_writes)
     run.add("cache-key.get_fmm_interface", "post", ob_cache_key, "get_fmm_interface")
     run.add("cache-key.get_fmm_potential_interface", "post", ob_cache_key, "get_fmm_potential_interface")
     for asm, kinds in (("dense", ("scalar", "hypersingular", "maxwell", "potential", "maxwell-potential")), ("fmm", ("scalar", "hypersingular", "maxwell", "potential", "maxwell-potential")),
